@@ -25,6 +25,9 @@ import (
 // function names differently, so that a stale output leaking into the type check changes the result
 // (the output file name sorts before the setup file, so its declarations would win).
 type c12Variant struct {
+	// UseA: the setup file has a method over am.T (package a/model, declared name "model"), so its output
+	// imports that package; the sibling file home/sib.go always uses b/model (also "model") in a field type
+	UseA     bool
 	TA, TB   string
 	Methods  []string // notation+method text blocks
 	HelperV  int
@@ -35,6 +38,9 @@ type c12Variant struct {
 func (v c12Variant) render() string {
 	var sb strings.Builder
 	sb.WriteString("//go:build convergen\n\npackage home\n\n")
+	if v.UseA {
+		sb.WriteString("import am \"example.com/m/a/model\"\n\n")
+	}
 	fmt.Fprintf(&sb, "type A struct {\n\tX %s\n\tY string\n\tZ []int\n}\n\n", v.TA)
 	fmt.Fprintf(&sb, "type B struct {\n\tX %s\n\tY string\n\tZ []int\n}\n\n", v.TB)
 	sb.WriteString("type Convergen interface {\n")
@@ -44,6 +50,10 @@ func (v c12Variant) render() string {
 		}
 		sb.WriteString(m)
 	}
+	if v.UseA {
+		sb.WriteString("\t// :typecast\n\tConvertModelA(*am.T) *SibD\n")
+	}
+	sb.WriteString("\t// :typecast\n\tConvertSibling(*SibS) *SibD\n")
 	if v.BadNote {
 		sb.WriteString("\t// :style sideways\n\tConvertRejected(*A) *B\n")
 	}
@@ -51,6 +61,25 @@ func (v c12Variant) render() string {
 	fmt.Fprintf(&sb, "func helper() int { return %d }\n", v.HelperV)
 	return sb.String()
 }
+
+// c12Sibling is an ordinary file of the package: its struct uses a type of b/model, a package the setup
+// file never imports (its qualifier in the generated code comes from the sibling-only import handling).
+const c12Sibling = `package home
+
+import bm "example.com/m/b/model"
+
+type SibS struct {
+	A int
+	N int
+	V []int
+}
+
+type SibD struct {
+	A int
+	N bm.BInt
+	V []bm.BInt
+}
+`
 
 var c12MethodPool = []string{
 	"\tConvertAToB(*A) *B\n",
@@ -67,10 +96,20 @@ func genC12Family(t *rapid.T) []c12Variant {
 	var fam []c12Variant
 	for i := 0; i < n; i++ {
 		v := c12Variant{TA: rapid.SampledFrom(types).Draw(t, "ta"), TB: rapid.SampledFrom(types).Draw(t, "tb"), HelperV: i,
-			Typecast: rapid.Bool().Draw(t, "typecast")}
+			Typecast: rapid.Bool().Draw(t, "typecast"), UseA: rapid.IntRange(0, 2).Draw(t, "useA") == 0}
 		k := rapid.IntRange(1, 3).Draw(t, "nm")
 		perm := rapid.Permutation(c12MethodPool).Draw(t, "methods")
 		v.Methods = perm[:k]
+		if i > 0 && rapid.IntRange(0, 3).Draw(t, "dropLast") == 0 {
+			// the previous variant minus its last method: the new output may be a proper prefix of the old one
+			v = fam[i-1]
+			v.HelperV = fam[i-1].HelperV
+			if len(v.Methods) > 1 {
+				v.Methods = v.Methods[:len(v.Methods)-1]
+			} else {
+				v.UseA = false
+			}
+		}
 		if i == n-1 && rapid.IntRange(0, 3).Draw(t, "rejected") == 0 {
 			v.BadNote = true
 		}
@@ -155,6 +194,11 @@ func corruptionClass(pre *string, clean map[string]bool) string {
 		return "stale-output"
 	}
 	for c := range clean {
+		if len(s) > len(c) && strings.HasPrefix(s, c) {
+			return "good-output-plus-appended-text"
+		}
+	}
+	for c := range clean {
 		if strings.HasPrefix(c, s) {
 			switch {
 			case len(s) == 0:
@@ -175,7 +219,7 @@ func corruptionClass(pre *string, clean map[string]bool) string {
 func c12Judge(env *hx.Env, m c12Meta, rec *hx.Recorder) (hx.Verdict, int) {
 	root := env.Scratch("hist")
 	defer os.RemoveAll(root)
-	base := (&pg.Prog{}).Files()
+	base := (&pg.Prog{}).Files().Set("home/sib.go", c12Sibling)
 	base = removeFile(base, pg.SetupPath)
 	if err := hx.WriteTree(root, base); err != nil {
 		return hx.Failf("harness|io", "%v", err), 0
@@ -203,6 +247,11 @@ func c12Judge(env *hx.Env, m c12Meta, rec *hx.Recorder) (hx.Verdict, int) {
 			if cur := readOpt(outAbs); cur != nil && len(*cur) > 0 {
 				k := min(st.Arg, len(*cur))
 				_ = os.WriteFile(outAbs, []byte((*cur)[:k]), 0o644)
+				corrupted = true
+			}
+		case "append":
+			if cur := readOpt(outAbs); cur != nil {
+				_ = os.WriteFile(outAbs, []byte(*cur+st.Text), 0o644)
 				corrupted = true
 			}
 		case "stale", "break":
@@ -270,7 +319,7 @@ func c12Judge(env *hx.Env, m c12Meta, rec *hx.Recorder) (hx.Verdict, int) {
 func TestC12(t *testing.T) {
 	env, rec := start(t, "C12", "fault_enumeration",
 		"(a) rapid state machine over a scratch package with a family of 3-5 setup-file variants that redefine the same type and function names differently (types declared in the setup file and carried over): "+
-			"actions edit(variant), run, truncate(k), stale(output of another variant), break(one of ten same-package corruptions: unbalanced braces, half a declaration, duplicate declarations, garbage, unresolved import, unterminated import, bare package clause, conflicting redefinitions, binary junk, empty), delete; "+
+			"actions edit(variant), run, truncate(k), stale(output of another variant; variants differ in methods, field types, whether they import a/model, and some are an earlier variant minus its last method), append(text after the good output), break(one of ten same-package corruptions: unbalanced braces, half a declaration, duplicate declarations, garbage, unresolved import, unterminated import, bare package clause, conflicting redefinitions, binary junk, empty), delete; "+
 			"(b) crash-point sweep: for outputs of several variants every truncation point 0..len (quick: every byte of one output; thorough: six outputs). "+
 			"Oracle: each run is done twice in the same directory, with the output path emptied and with the previous content restored: equal exit status, stdout, stderr, bytes; run;run changes nothing. "+
 			"Non-trivial: a judged run preceded by truncate/stale/break since the last run; histories distinct by hash, sweep points by construction.")
@@ -308,7 +357,7 @@ func TestC12(t *testing.T) {
 
 	// clean output of a variant (run in an empty directory)
 	cleanOut := func(setup string) (string, bool) {
-		o, err := pg.RunModule(env, (&pg.Prog{}).Files().Set(pg.SetupPath, setup))
+		o, err := pg.RunModule(env, (&pg.Prog{}).Files().Set("home/sib.go", c12Sibling).Set(pg.SetupPath, setup))
 		if err != nil {
 			return "", false
 		}
@@ -393,8 +442,11 @@ func TestC12(t *testing.T) {
 					continue
 				}
 				m.Steps = append(m.Steps, c12Step{Op: "stale", Text: o}, c12Step{Op: "run"})
-			case k < 95:
+			case k < 90:
 				m.Steps = append(m.Steps, c12Step{Op: "break", Text: rapid.SampledFrom(c12Broken).Draw(rt, "broken")}, c12Step{Op: "run"})
+			case k < 95:
+				// something appended to the good output (left-over of a longer earlier result)
+				m.Steps = append(m.Steps, c12Step{Op: "append", Text: rapid.SampledFrom([]string{"\nfunc leftOver() int { return 1 }\n", "// trailing junk", "\n\n", "}", "\nfunc ConvertAToB(src *A) (dst *B) {\n\treturn nil\n}\n"}).Draw(rt, "appended")}, c12Step{Op: "run"})
 			default:
 				m.Steps = append(m.Steps, c12Step{Op: "delete"})
 			}
@@ -422,7 +474,7 @@ func TestC12(t *testing.T) {
 		nontrivial := false
 		for _, s := range m.Steps {
 			ops = append(ops, s.Op)
-			if s.Op == "truncate" || s.Op == "stale" || s.Op == "break" {
+			if s.Op == "truncate" || s.Op == "stale" || s.Op == "break" || s.Op == "append" {
 				nontrivial = true
 			}
 		}
